@@ -97,6 +97,11 @@ def main():
         shutil.copy(demo, os.path.join(d, "demo" + os.path.splitext(demo)[1]))
     for h in os.listdir(os.path.dirname(demo)):
         if h.endswith(".h") and os.path.dirname(demo) != d: shutil.copy(os.path.join(os.path.dirname(demo), h), os.path.join(d, h))
+    try:      # annotations made by hand survive a re-run
+        prev = json.load(open(os.path.join(d, "meta.json")))
+        for k in ("outside_statement", "extra_demo_flags", "note"):
+            if k in prev and k not in meta: meta[k] = prev[k]
+    except Exception: pass
     json.dump(meta, open(os.path.join(d, "meta.json"), "w"), indent=1)
     print(json.dumps({k: meta[k] for k in ("seed", "confirmed", "demo_unchanged_exit", "demo_changed_exit", "repo_tests_with_change", "checks")}, indent=1))
     return 0
